@@ -114,6 +114,13 @@ pub fn random_cfg(rng: &mut Rng, swallowing: bool) -> String {
                     }
                 }
             }
+            // an alternative made of non-terminals only that mentions its own left-hand side
+            // (n0: n0 n0, n0: n0) is exponentially ambiguous: single operations then cost minutes
+            let me = format!("n{}", i);
+            let only_nt = a.iter().all(|x| x.starts_with('n') && !x.contains('"'));
+            if only_nt && a.iter().any(|x| *x == me) {
+                a.push(format!("\"{}\"", rng.pick(&lits)));
+            }
             alts.push(a.join(" "));
         }
         if rng.chance(0.15) {
